@@ -67,9 +67,10 @@ holds at most `n` symbols -/
 structure PB (n : Nat) (st : State) : Prop where
   pend : ∀ f, f < 3 → ∀ s ∈ st.get f, 2 ≤ s ∧ s < n
   win : st.codon.length ≤ n
+  win3 : st.codon.length ≤ 3
 
 theorem init_PB : PB 0 State.init := by
-  refine ⟨?_, by simp [State.init]⟩
+  refine ⟨?_, by simp [State.init], by simp [State.init]⟩
   intro f _ s hs
   unfold State.get State.init at hs
   split at hs
@@ -77,6 +78,10 @@ theorem init_PB : PB 0 State.init := by
   · split at hs <;> simp at hs
 
 theorem window_length_le {n : Nat} {st : State} (h : st.codon.length ≤ n) (c : Nat) : (window st c).length ≤ n + 1 := by
+  unfold window
+  split <;> simp <;> omega
+
+theorem window_length_le3 {st : State} (h : st.codon.length ≤ 3) (c : Nat) : (window st c).length ≤ 3 := by
   unfold window
   split <;> simp <;> omega
 
@@ -99,7 +104,7 @@ theorem pendingNow_bounds {starts : List (List Nat)} (h3s : ∀ c ∈ starts, c.
 theorem stepP_PB {starts : List (List Nat)} (h3s : ∀ c ∈ starts, c.length = 3) (P : Nat → Nat → Bool)
     (stops : List (List Nat)) {n : Nat} {st : State} (hpb : PB n st) (c : Nat) :
     PB (n + 1) (stepP P starts stops st n c) := by
-  refine ⟨?_, ?_⟩
+  refine ⟨?_, ?_, ?_⟩
   · intro f hf s hs
     by_cases hne : f = (n + 1) % 3
     · subst hne
@@ -110,6 +115,7 @@ theorem stepP_PB {starts : List (List Nat)} (h3s : ∀ c ∈ starts, c.length = 
     · rw [stepP_get_other _ _ _ _ _ _ _ hf hne] at hs
       have := hpb.pend f hf s hs; omega
   · rw [stepP_codon]; exact window_length_le hpb.win c
+  · rw [stepP_codon]; exact window_length_le3 hpb.win3 c
 
 /-! ## the accumulator -/
 
